@@ -168,6 +168,54 @@ impl C10 {
                     cx.violation(&format!("{}|truncated-stream-accepted", class), json!({"len": bytes.len(), "bytes": render_bytes(bytes)}));
                     return;
                 }
+                // what is returned is made of the stream: every string is text (a `String` holding bytes that are not UTF-8 is a broken value,
+                // however quietly it travels), and every coordinate is four consecutive bytes of the input (a word put together from the
+                // tail of a short payload and whatever an earlier record left in a buffer is an invention)
+                {
+                    let mut bad_text: Option<&'static str> = None;
+                    let mut invented: Option<i32> = None;
+                    let mut text = |s: &String, what: &'static str| {
+                        if std::str::from_utf8(s.as_bytes()).is_err() {
+                            bad_text = Some(what);
+                        }
+                    };
+                    let in_stream = |v: i32| bytes.windows(4).any(|w| w == v.to_be_bytes());
+                    let mut coord = |p: &gds21::GdsPoint| {
+                        for v in [p.x, p.y] {
+                            if invented.is_none() && !in_stream(v) {
+                                invented = Some(v);
+                            }
+                        }
+                    };
+                    text(&lib.name, "library name");
+                    for s in &lib.structs {
+                        text(&s.name, "structure name");
+                        for e in &s.elems {
+                            use gds21::GdsElement::*;
+                            let props = match e {
+                                GdsBoundary(x) => { x.xy.iter().for_each(&mut coord); &x.properties }
+                                GdsPath(x) => { x.xy.iter().for_each(&mut coord); &x.properties }
+                                GdsStructRef(x) => { text(&x.name, "reference name"); coord(&x.xy); &x.properties }
+                                GdsArrayRef(x) => { text(&x.name, "reference name"); x.xy.iter().for_each(&mut coord); &x.properties }
+                                GdsTextElem(x) => { text(&x.string, "text string"); coord(&x.xy); &x.properties }
+                                GdsNode(x) => { x.xy.iter().for_each(&mut coord); &x.properties }
+                                GdsBox(x) => { x.xy.iter().for_each(&mut coord); &x.properties }
+                            };
+                            for p in props {
+                                text(&p.value, "property value");
+                            }
+                        }
+                    }
+                    if let Some(w) = bad_text {
+                        cx.violation(&format!("{}|returned-string-is-not-utf8|{}", class, w.replace(' ', "-")), json!({"bytes": render_bytes(bytes)}));
+                        return;
+                    }
+                    if let Some(v) = invented {
+                        cx.violation(&format!("{}|returned-coordinate-not-in-the-stream", class), json!({"coordinate": v, "bytes": render_bytes(bytes)}));
+                        return;
+                    }
+                    cx.count("returned_values_made_of_the_stream");
+                }
                 // closure: what the reader returns can be written and read back to the same value
                 let again = guard(|| {
                     let mut buf = Vec::new();
@@ -310,6 +358,20 @@ impl C10 {
                 r[0..2].copy_from_slice(&l.to_be_bytes());
                 self.probe(cx, &with(&r), false, class, &mut st);
                 cx.count("fault.length");
+            }
+            // payload shortened / lengthened by one 16-bit word WITH the length field adjusted: the framing of everything after it stays
+            // intact, only this record has a size its type cannot have (an XY of 4k+2 bytes, a real of 6, a string record is fine)
+            if len >= 6 {
+                let mut r = bytes[a..b - 2].to_vec();
+                r[0..2].copy_from_slice(&((len - 2) as u16).to_be_bytes());
+                self.probe(cx, &with(&r), false, class, &mut st);
+                let mut r = bytes[a..b].to_vec();
+                r.extend_from_slice(&[0x12, 0x34]);
+                if len + 2 <= 0xFFFF {
+                    r[0..2].copy_from_slice(&((len + 2) as u16).to_be_bytes());
+                    self.probe(cx, &with(&r), false, class, &mut st);
+                }
+                cx.count("fault.payload_resized_consistently");
             }
             // payload emptied
             {
